@@ -15,6 +15,8 @@ def run(report):
     add_obs(report, _raises)
     # the disk load as a VC: no exception escapes whatever the primitives raise or return, a stale or foreign pickle is None
     verify_keys(report, ['parso.cache._load_from_file_system', 'parso.cache.try_to_save_module',
+                         # a save that returns normally has written the item to the entry's file, whatever was there
+                         'parso.cache._save_to_file_system',
                          # maintenance: only files not accessed for the survival time are removed; the lock file is the only
                          # file touched, in append mode; the automatic clean-up runs with the default threshold
                          'parso.cache.clear_inactive_cache', 'parso.cache._touch', 'parso.cache._get_cache_clear_lock_path',
